@@ -5,6 +5,7 @@ import ast
 
 from ..loops import dotted
 from ..nf import NF, Scope, Poly, parse_expr
+from ..sem import same_ingredients, OrderModel, Unknown
 from ..repo import Repo, loc, short, AnalysisError, positional_params, param_names
 from ..shapes import ShapeEngine
 
@@ -40,18 +41,26 @@ def run(ck, repo: Repo, tier: str):
     env = _env(fn)
     ck.need(param_names(fn)[:2] == ["abs_errors", "delta"], f"{q}: signature changed")
     got = nf.return_poly(q, env)
-    qa = "minimum(abs_errors, delta)"
     where = loc(fn._module, fn)
-    ok = qa in got.atoms()
-    ck.ob("R1-huber", q, "min-residual-form", ok, f"return {got.canon()}", "" if ok else "expected the quadratic/linear split through minimum(abs_errors, delta)", where)
-    if ok:
-        e, d = env["abs_errors"], env["delta"]
-        inside = got.subst_atom(qa, e)
-        outside = got.subst_atom(qa, d)
-        w_in = e.pow(2).scale("1/2")
-        w_out = d * (e - d.scale("1/2"))
-        ck.ob("R1-huber", q, "branch:|e|<=delta", inside == w_in, f"min = e  =>  {inside.canon()}", "" if inside == w_in else f"must be 0.5*e^2, got a difference of {(inside - w_in).canon()}", where)
-        ck.ob("R1-huber", q, "branch:|e|>delta", outside == w_out, f"min = delta  =>  {outside.canon()}", "" if outside == w_out else f"must be delta*(e - 0.5*delta), got a difference of {(outside - w_out).canon()}", where)
+    e, d = env["abs_errors"], env["delta"]
+    # piecewise identity in the three order worlds of (|e|, delta); delta > 0 and |e| >= 0 are documented preconditions
+    model = OrderModel()
+    model.cluster([Poly.const(0), e, d], constraint=lambda r: r[0] < r[2] and r[0] <= r[1])
+    model.positive("delta")
+    seen = set()
+    for w in model.worlds():
+        sg = model.sign(w, e - d)
+        label = "|e|<delta" if sg < 0 else "|e|=delta" if sg == 0 else "|e|>delta"
+        if label in seen:
+            continue
+        val = model.value(w, nf, got)
+        want = model.resolve(w, e.pow(2).scale("1/2") if sg <= 0 else d * (e - d.scale("1/2")))
+        ok = val == want
+        if not ok and not (val.atoms() <= {"abs_errors", "delta"}):
+            raise AnalysisError(f"{q}: value `{val.canon()[:100]}` in the world {label} (unrecognised form)")
+        seen.add(label)
+        ck.ob("R1-huber", q, f"branch:{label}", ok, f"{label}  =>  {val.canon()}", "" if ok else f"must be {'0.5*e^2' if sg <= 0 else 'delta*(e - 0.5*delta)'}, got a difference of {(val - want).canon()}", where)
+    ck.ob("R1-huber", q, "worlds", len(seen) == 3, f"{sorted(seen)}", "" if len(seen) == 3 else "order model degenerate", where)
 
     # ---- R2 cross-entropy / decoding ---------------------------------------------------------------------------
     P = "rl_blox.blox.preprocessing."
@@ -116,13 +125,78 @@ def run(ck, repo: Repo, tier: str):
     fn = repo.func(q)
     mi = fn._module
     env = _env(fn)
-    got = nf.return_poly(q, env).canon()
-    want = nf.poly(parse_expr("(jnp.ones(total_timesteps) * end).at[:int(total_timesteps * fraction)].set(jnp.linspace(start, end, int(total_timesteps * fraction)))"), Scope(None, mi, env, q), None).canon()
-    ok = got == want
-    ck.ob("R4-schedule", q, "form", ok, f"return {got}", "" if ok else f"must be ones(total)*end with the first int(total*fraction) entries set to linspace(start, end, int(total*fraction))", loc(mi, fn))
-    ts = [n for n in ast.walk(fn) if isinstance(n, ast.Assign) and dotted(n.targets[0]) == "transition_steps"]
-    ok = len(ts) == 1 and ast.unparse(ts[0].value) == "int(total_timesteps * fraction)"
-    ck.ob("R4-schedule", q, "transition-steps", ok, f"transition_steps = {ast.unparse(ts[0].value) if ts else None}", "" if ok else "the transition spans int(total_timesteps * fraction) steps", loc(mi, fn))
+    gotp = nf.return_poly(q, env)
+    TT, ST, EN, FR = (env[x] for x in ("total_timesteps", "start", "end", "fraction"))
+    n_want = nf.poly(parse_expr("int(total_timesteps * fraction)"), Scope(None, mi, env, q), None)
+    facts = {"lengths": set(), "counts": set()}
+
+    def mk(fn_, a, b):
+        return nf._mkcall(fn_, [a, b], {})
+
+    def elem(p, kind):
+        """Element of an array-valued normal form at the first / last index of the transition or at an index after it."""
+        out = Poly.const(0)
+        for mono, c in p.terms.items():
+            term = Poly.const(c)
+            for a, k in mono:
+                term = term * elem_atom(a, kind).pow(k)
+            out = out + term
+        return out
+
+    def elem_atom(a, kind):
+        m = nf.meta.get(a)
+        if m is None:
+            if a in env:
+                return Poly.atom(a)      # scalar parameter
+            raise Unknown(a)
+        fn_ = m.get("fn", "").split(".")[-1]
+        args = m.get("args", [])
+        if "at" in m and m["at"]["op"] == "set" and len(args) == 1:
+            idx = m["at"]["index"]
+            if not idx.startswith(":") or ":" in idx[1:]:
+                raise Unknown(a)
+            facts["counts"].add(idx[1:])
+            return elem(m["at"]["base"], kind) if kind == "tail" else elem(args[0], kind)
+        if fn_ in ("ones", "ones_like") and args:
+            facts["lengths"].add(args[0].canon())
+            return Poly.const(1)
+        if fn_ in ("zeros", "zeros_like") and args:
+            facts["lengths"].add(args[0].canon())
+            return Poly.const(0)
+        if fn_ == "full" and len(args) >= 2:
+            facts["lengths"].add(args[0].canon())
+            return args[1]
+        if fn_ == "linspace" and len(args) >= 3 and kind in ("first", "last") and m.get("kws", {}).get("endpoint") is None:
+            facts["counts"].add(args[2].canon())
+            return args[0] if kind == "first" else args[1]
+        if fn_ == "clip" and len(args) == 3 and not m.get("kws"):
+            return mk("minimum", mk("maximum", elem(args[0], kind), elem(args[1], kind)), elem(args[2], kind))
+        if fn_ in ("minimum", "maximum") and len(args) == 2:
+            return mk(fn_, elem(args[0], kind), elem(args[1], kind))
+        raise Unknown(a)
+
+    model = OrderModel()
+    model.cluster([ST, EN])
+    viol, okk = {}, set()
+    try:
+        for w in model.worlds():
+            for kind, want, why in (("tail", EN, "after the transition the schedule must hold `end`"), ("first", ST, "the schedule must begin at `start`"), ("last", EN, "the transition must arrive at `end`")):
+                val = model.value(w, nf, elem(gotp, kind))
+                if model.resolve(w, val) == model.resolve(w, want):
+                    okk.add(kind)
+                    continue
+                if not (val.atoms() <= {"start", "end"}):
+                    raise Unknown(val.canon())
+                viol.setdefault(kind, (f"element ({kind}) = {val.canon()} in the world [{model.describe(w)}]", why))
+    except Unknown as u:
+        raise AnalysisError(f"{q}: element-wise reading of `{gotp.canon()[:100]}` stops at `{str(u)[:60]}` (unrecognised form)")
+    for kind in ("tail", "first", "last"):
+        v = viol.get(kind)
+        ck.ob("R4-schedule", q, f"element:{kind}", v is None, f"return {gotp.canon()[:120]}" if v is None else v[0], "" if v is None else v[1], loc(mi, fn))
+    okl = facts["lengths"] == {TT.canon()}
+    ck.ob("R4-schedule", q, "length", okl, f"array length(s) {sorted(facts['lengths'])}", "" if okl else "the schedule must have total_timesteps entries", loc(mi, fn))
+    okc = facts["counts"] == {n_want.canon()}
+    ck.ob("R4-schedule", q, "transition-steps", okc, f"transition count(s) {sorted(facts['counts'])}", "" if okc else "the transition spans exactly int(total_timesteps * fraction) steps (slice and linspace count agree)", loc(mi, fn))
 
     # ---- R5 masked loss ------------------------------------------------------------------------------------------------------
     q = "rl_blox.blox.losses.masked_mse_loss"
@@ -141,6 +215,10 @@ def run(ck, repo: Repo, tier: str):
 
 _L, _P, _N, _S = "rl_blox/blox/losses.py", "rl_blox/blox/preprocessing.py", "rl_blox/blox/function_approximator/norm.py", "rl_blox/blox/schedules.py"
 MUTANTS = [
+    {"id": "c18-schedule-clipped", "file": _S, "rule": "R4", "find": "    return schedule\n", "replace": "    return jnp.clip(schedule, end, start)\n"},
+    {"id": "c18-schedule-count-off", "file": _S, "rule": "R4", "find": "        jnp.linspace(start, end, transition_steps)", "replace": "        jnp.linspace(start, end, transition_steps + 1)[:-1]", "accept_error": True},
+    {"id": "c18-huber-where-swapped", "file": _L, "rule": "R1", "find": "    quadratic = jnp.minimum(abs_errors, delta)\n    # Same as max(abs_x - delta, 0) but avoids potentially doubling gradient.\n    linear = abs_errors - quadratic\n    return 0.5 * quadratic**2 + delta * linear",
+     "replace": "    return jnp.where(abs_errors > delta, 0.5 * abs_errors**2, delta * (abs_errors - 0.5 * delta))"},
     {"id": "c18-huber-linear-wrong", "file": _L, "rule": "R1", "find": "    return 0.5 * quadratic**2 + delta * linear", "replace": "    return 0.5 * quadratic**2 + delta * (abs_errors - delta)"},
     {"id": "c18-huber-no-half", "file": _L, "rule": "R1", "find": "    return 0.5 * quadratic**2 + delta * linear", "replace": "    return quadratic**2 + delta * linear"},
     {"id": "c18-huber-max", "file": _L, "rule": "R1", "find": "    quadratic = jnp.minimum(abs_errors, delta)", "replace": "    quadratic = jnp.maximum(abs_errors, delta)"},
@@ -159,6 +237,10 @@ MUTANTS = [
     {"id": "c18-masked-mask-sum", "file": _L, "rule": "R5", "find": "    return jnp.mean(\n        optax.squared_error(predictions=predictions, targets=targets)\n        * mask[:, jnp.newaxis]\n    )", "replace": "    return jnp.mean(\n        optax.squared_error(predictions=predictions, targets=targets)\n        + mask[:, jnp.newaxis]\n    )"},
 ]
 BENIGN = [
+    {"id": "c18-b-schedule-full", "file": _S, "find": "    schedule = jnp.ones(total_timesteps) * end", "replace": "    schedule = jnp.full(total_timesteps, end)"},
+    {"id": "c18-b-huber-where", "file": _L, "find": "    quadratic = jnp.minimum(abs_errors, delta)\n    # Same as max(abs_x - delta, 0) but avoids potentially doubling gradient.\n    linear = abs_errors - quadratic\n    return 0.5 * quadratic**2 + delta * linear",
+     "replace": "    return jnp.where(abs_errors <= delta, 0.5 * abs_errors**2, delta * (abs_errors - 0.5 * delta))"},
+    {"id": "c18-b-huber-relu", "file": _L, "find": "    linear = abs_errors - quadratic\n", "replace": "    linear = jnp.maximum(abs_errors - delta, 0.0)\n"},
     {"id": "c18-b-huber-rewrite", "file": _L, "find": "    return 0.5 * quadratic**2 + delta * linear", "replace": "    return delta * linear + quadratic * quadratic / 2"},
     {"id": "c18-b-ce-neg-inside", "file": _P, "find": "    return -jnp.sum(target * log_pred, axis=-1)", "replace": "    return jnp.sum(-log_pred * target, axis=-1)"},
     {"id": "c18-b-norm-local", "file": _N, "find": "    return x / jnp.maximum(jnp.mean(jnp.abs(x), axis=-1, keepdims=True), eps)", "replace": "    scale = jnp.maximum(jnp.mean(jnp.abs(x), axis=-1, keepdims=True), eps)\n    return x / scale"},
